@@ -251,6 +251,23 @@ def container_boxes(ctx, world):
         if r is None or r.kind != "repo":
             raise AnalysisError(f"builtins.{cname} vanished")
         cls = r.node
+        # the members the class has: its own and those of its repo base classes below Box (nearest definition wins)
+        members, owner_of = [], {}
+        for k_ in class_mro(world.repo, r):
+            if k_.qual in ("autograd.tracer.Box",) or k_.mod is not m:
+                continue
+            for st in k_.node.body:
+                nm_ = st.name if isinstance(st, ast.FunctionDef) else (st.targets[0].id if isinstance(st, ast.Assign) and len(st.targets) == 1 and isinstance(st.targets[0], ast.Name) else None)
+                if nm_ is None or nm_ in owner_of:
+                    continue
+                owner_of[nm_] = k_.node.name
+                members.append(st)
+
+        class _Members:
+            body = members
+
+        cls_pos = cls
+        cls = _Members
         gi = None
         for st in cls.body:
             if isinstance(st, ast.Assign) and any(isinstance(t, ast.Name) and t.id == "__getitem__" for t in st.targets):
@@ -260,7 +277,7 @@ def container_boxes(ctx, world):
         rr = world.repo.resolve_expr(m, gi) if isinstance(gi, ast.expr) else None
         n += 1
         ok = rr is not None and rr.qual == "autograd.builtins.container_take" and world.repo.is_primitive_ref(rr)
-        _okfail(ctx, "A14.containers", f"{cname}.__getitem__", ok, loc_of(m, cls), f"{cname}.__getitem__ is not the container_take primitive", "indexing a traced tuple/list/dict", construct=f"autograd.builtins.{cname}.__getitem__")
+        _okfail(ctx, "A14.containers", f"{cname}.__getitem__", ok, loc_of(m, cls_pos), f"{cname}.__getitem__ is not the container_take primitive", "indexing a traced tuple/list/dict", construct=f"autograd.builtins.{cname}.__getitem__")
         for st in cls.body:
             if not isinstance(st, ast.FunctionDef):
                 continue
@@ -291,7 +308,7 @@ def container_boxes(ctx, world):
             if fnq is None:
                 continue
             n += 1
-            rq, syq, mq, fq_, scq = eval_function(world, "autograd.builtins", f"{cname}.{qname}")
+            rq, syq, mq, fq_, scq = eval_function(world, "autograd.builtins", f"{owner_of.get(qname, cname)}.{qname}")
             selfq = syq["#0"]
             rq = strip_seq(rq) if rq is not None else None
             rawv = lambda t: t is not None and t.op == "attr" and t.name == "_value" and t.obj is selfq
@@ -313,7 +330,7 @@ def container_boxes(ctx, world):
                 ok, why = False, f"SequenceBox.{meth} is missing"
                 if fn is not None:
                     ok, why = _concat_wiring(world, meth, self_side)
-                _okfail(ctx, "A14.containers", f"SequenceBox.{meth}", ok, loc_of(m, fn) if fn else loc_of(m, cls), f"SequenceBox.{meth}: {why}", "traced_tuple + (a, b) / (a, b) + traced_tuple with traced a, b", construct=f"autograd.builtins.SequenceBox.{meth}")
+                _okfail(ctx, "A14.containers", f"SequenceBox.{meth}", ok, loc_of(m, fn) if fn else loc_of(m, cls_pos), f"SequenceBox.{meth}: {why}", "traced_tuple + (a, b) / (a, b) + traced_tuple with traced a, b", construct=f"autograd.builtins.SequenceBox.{meth}")
     ctx.floor("A14.containers methods", n, 14)
 
 
@@ -1303,3 +1320,44 @@ def rank_guards(ctx, world):
             else:
                 ctx.ob("A6.guardarg", inst, True, e.loc)
     ctx.floor("A6.guardarg rank guards in rules of flattening functions", n, 2)
+
+
+def type_queries(ctx, world):
+    """A14.typeq - autograd.builtins.isinstance / type answer for the PLAIN value a traced value stands for, at every
+    nesting depth: they are the builtins wrapped by notrace_primitive (which strips every box level with getval), or a
+    function that applies the builtin to getval(<first argument>).  Unwrapping a single level (`obj._value`) answers
+    for the inner box once differentiation is nested."""
+    ctx.describe("A14.typeq", "autograd.builtins.isinstance and autograd.builtins.type are the same-named builtins applied to the fully unboxed first argument: bound as notrace_primitive(<builtin>) or written as <builtin>(getval(x), ...); no single-level `._value` unwrapping")
+    m = world.repo.mod("autograd.builtins")
+    n = 0
+    for name in ("isinstance", "type"):
+        bl = m.top.get(name)
+        if not bl:
+            raise AnalysisError(f"autograd.builtins.{name} vanished")
+        # the LAST module-level binding of the name is what the module exports
+        kind, node = bl[-1][0], bl[-1][1]
+        n += 1
+        ok, why = False, f"autograd.builtins.{name} is not bound to notrace_primitive({name}) nor to a function of that form"
+        loc = loc_of(m, bl[-1][2]) if len(bl[-1]) > 2 and bl[-1][2] is not None else loc_of(m, node)
+        if kind == "assign" and isinstance(node, ast.Call) and len(node.args) == 1 and not node.keywords:
+            fr = world.repo.resolve_expr(m, node.func)
+            # the argument is evaluated BEFORE the name is rebound: it is the builtin (or an alias of it bound earlier)
+            ar = world.repo.resolve(m, node.args[0].id, before=node.lineno) if isinstance(node.args[0], ast.Name) and "before" in world.repo.resolve.__code__.co_varnames else world.repo.resolve_expr(m, node.args[0])
+            aq = ar.qual if ar is not None else (f"builtins.{node.args[0].id}" if isinstance(node.args[0], ast.Name) else "")
+            ok = fr is not None and fr.qual == "autograd.tracer.notrace_primitive" and aq in (f"builtins.{name}", f"autograd.builtins.{name}")
+        elif kind in ("def", "function") or isinstance(node, ast.FunctionDef):
+            fnode = node if isinstance(node, ast.FunctionDef) else None
+            if fnode is not None and fnode.args.args:
+                r_, sy_, m_, fn_, sc_ = eval_function(world, "autograd.builtins", name)
+                r_ = strip_seq(r_) if r_ is not None else None
+                x0 = sy_["#0"]
+                if r_ is not None and r_.op == "call" and r_.fn.op == "ref" and r_.fn.ref.qual == f"builtins.{name}" and r_.args:
+                    a0 = r_.args[0]
+                    ok = is_call_to(a0, "autograd.tracer.getval") and len(a0.args) == 1 and a0.args[0] is x0
+                    if not ok:
+                        why = f"autograd.builtins.{name} applies the builtin to `{str(a0)[:50]}`, not to getval(<first argument>): one box level is stripped at most, so at nesting depth 2 the query is answered for the inner box"
+        if ok:
+            ctx.ob("A14.typeq", f"autograd.builtins.{name}", True, loc)
+        else:
+            ctx.fail("A14.typeq", f"autograd.builtins.{name}", f"autograd.builtins.{name}:unboxing", loc, why, f"grad(grad(f)) / hessian of a function that branches on autograd.builtins.{name}(x, ...) of its traced argument")
+    ctx.floor("A14.typeq replacements", n, 2)
